@@ -1577,8 +1577,8 @@ def _allowed(space, obs, cur, used):
 
 
 def explore(ctx, space, res, inline_below=96):
-    """level-synchronous BFS with replay; fills res (violations, counters
-    prefixed with the space name, outcomes, nontrivial).  -> stats dict"""
+    """level-synchronous BFS with replay; fills res (violations, outcomes,
+    nontrivial).  -> stats dict (states, transitions, executions, ...)"""
     stats = dict(states=0, transitions=0, executions=0, levels=0,
                  terminal_states=0, max_frontier=0, deadlocks=0,
                  complete=True)
